@@ -16,6 +16,7 @@ P = "C02"
 
 
 class C02World(E2EWorld):
+    prop = P
     name = "E2E-FF"
     link_default = "ff"
 
